@@ -128,7 +128,7 @@ func csvTokenUnit[T any](c *core.Ctx, shape string, first int, maxLen int) {
 	var rec func(prefix string, depth int)
 	rec = func(prefix string, depth int) {
 		for _, header := range []bool{true, false} {
-			var got []*T
+			var got, again []*T
 			res := mc.Run(func() {
 				cs, err := helper.NewCsv[T](header)
 				if err != nil {
@@ -136,6 +136,8 @@ func csvTokenUnit[T any](c *core.Ctx, shape string, first int, maxLen int) {
 				}
 				cs.Logger = quietLogger
 				got = drain(cs.ReadFromReader(strings.NewReader(prefix)))
+				// the reader object survives a malformed source: the same text read once more through the same object
+				again = drain(cs.ReadFromReader(strings.NewReader(prefix)))
 			}, mc.Options{})
 			n++
 			c.Executions++
@@ -149,6 +151,8 @@ func csvTokenUnit[T any](c *core.Ctx, shape string, first int, maxLen int) {
 				c.Fail("", fmt.Sprintf("CSV reader (%s, header=%v) hangs or leaks a goroutine on input %q (%s)", shape, header, prefix, blockedDesc(res)), info)
 			case !rowsEq(got, want):
 				c.Fail("", fmt.Sprintf("CSV reader (%s, header=%v) on input %q delivered %s, the well-formed prefix is %s", shape, header, prefix, descRows(got), descRows(want)), info)
+			case !rowsEq(again, want):
+				c.Fail("", fmt.Sprintf("CSV reader (%s, header=%v) reading input %q a second time through the same Csv object delivered %s, the well-formed prefix is %s", shape, header, prefix, descRows(again), descRows(want)), info)
 			}
 			if len(want) > 0 {
 				nontriv++
